@@ -280,6 +280,12 @@ func init() {
 				continue
 			}
 			switch d.Verdict {
+			case "empty":
+				// zero bytes are the pointer of the empty file
+				if !rr.Accepted || rr.Size != 0 {
+					report("empty-input-is-the-empty-pointer", fmt.Sprintf("empty input: accepted=%v size=%d err=%s", rr.Accepted, rr.Size, rr.Err))
+				}
+				continue
 			case "accept":
 				if !rr.Accepted {
 					report("canonical-accepted", "canonical encoding of a valid pointer was rejected: "+rr.Err)
